@@ -8,6 +8,17 @@ from .ecdsa_backend import ECDSABackend
 
 SECURITY_CODER = SecurityCoder()
 
+# Length in seconds of one unit of each choice of the IEEE 1609.2 Duration type
+DURATION_UNIT_SECONDS = {
+    "microseconds": 0.000001,
+    "milliseconds": 0.001,
+    "seconds": 1,
+    "minutes": 60,
+    "hours": 3600,
+    "sixtyHours": 216000,
+    "years": 31556952,
+}
+
 
 @dataclass(frozen=True)
 class Certificate:
@@ -576,6 +587,27 @@ class Certificate:
         if "appPermissions" not in tbs:
             return False
         return True
+
+    def is_valid_at(self, time64: int) -> bool:
+        """
+        Check whether a point in time lies within the validity period of the certificate.
+
+        Parameters
+        ----------
+        time64 : int
+            Time in microseconds since the ITS epoch (IEEE 1609.2 Time64), e.g. the
+            generationTime of a signed message.
+
+        Returns
+        -------
+        bool
+            True if validityPeriod.start <= time <= validityPeriod.start + duration.
+        """
+        validity_period = self.certificate["toBeSigned"]["validityPeriod"]
+        unit, value = validity_period["duration"]
+        start = validity_period["start"]
+        end = start + value * DURATION_UNIT_SECONDS[unit]
+        return start <= time64 / 1_000_000 <= end
 
     def is_enrolment_credential(self) -> bool:
         """
